@@ -260,6 +260,39 @@ reg(
   "CPU device (deterministic kernels); the fresh process shares the on-disk kernel cache; one fresh interpreter per case bounds the case count (tens per quick run).",
 )
 
+reg(
+  "C08",
+  "property-based differential testing (Hypothesis) in lock-step with mujoco.mj_step: generated models, states and inputs, resynchronised every step",
+  "Random articulated models with damping, fluid, tendons and actuator dynamics, and contact scenes with limits, friction and equalities; Euler (implicit damping on/off), implicitfast, implicit and RK4; "
+  "1-5 lock-step steps in 1-2 worlds: next qpos, qvel, act, time and warmstart compared with tolerances scaled by cond(M) and cond of the integrator matrix.",
+  "RK4 only contact-free; contact steps judged only when both engines report the same contacts/rows and both solvers converged; ill-conditioned (cond > 1e6) and diverging-reference steps skipped and counted; "
+  "deviations explained by a recorded mechanism (float64 recomputation from MuJoCo's own M, qacc, qDeriv) carry that KNOWN-FINDING's signature.",
+)
+reg(
+  "C23",
+  "property-based invariant testing (Hypothesis-generated step histories): rotation validity after every step; MuJoCo in lock-step only to separate diverging physics from a defect",
+  "Free- and ball-joint-heavy models with cameras (all modes), sites and a mocap body, angular speeds up to 1e3 rad/s, dt 1e-4..5e-2, un-normalised input quaternions, all integrators, 40-800 steps: every free/ball "
+  "quaternion of qpos has unit norm (1e-5), xquat unit, xmat/ximat/geom_xmat/site_xmat/cam_xmat proper rotations (1e-4, det > 0).",
+  "Non-finite states are reported only with a demonstrated one-step deviation from mj_step above 2% in a moderate, well-conditioned regime; contact cases run at moderate energy and are not judged when they diverge.",
+)
+reg(
+  "C26",
+  "property-based round-trip testing (Hypothesis): forward -> inverse identity on generated models and states, MuJoCo providing the Cartesian force map",
+  "forward then inverse for all integrators (continuous), and with INVDISCRETE for Euler (eulerdamp on/off) and implicitfast using the acceleration the step actually applied; with and without contacts, limits, "
+  "friction and equalities, actuators, applied and Cartesian forces, sparse and dense: qfrc_inverse == qfrc_applied + J^T xfrc_applied + qfrc_actuator; inverse leaves qacc untouched.",
+  "Tolerance 10x forward residual + 1e-3*scale plus explicit float32 round-off terms in discrete mode; worlds with an unconverged forward pass or unusable round-off are skipped and counted.",
+)
+
+reg(
+  "C40",
+  "property-based differential testing (Hypothesis): single-flexcomp models and deformed states compared stage by stage with MuJoCo C mj_forward on the float32-rounded state",
+  "A menu of small 1D/2D/3D flex topologies (vertex bodies, dof=2d/radial, trilinear nodes) with random spacing, mass and radius; edge or strain equality, elasticity or edge springs; pins; self-collision modes; "
+  "an optional plane/sphere/capsule/box collider; both cones; dense or sparse; small random deformations, velocities and folds, 1-2 worlds: flexvert_xpos, flexedge_length/velocity/J, qfrc_spring/damper/passive, "
+  "flex equality rows, flex-plane contacts (exact multiset), other flex contacts (presence, deepest penetration, normal orientation, parameters) and contact rows when the contact sets coincide.",
+  "Deliberately narrow grammar (flex is experimental): one flex per model, no flex-flex pairs, small vertex counts; contact agreement for non-plane geoms and self-collision is one-sided; qacc is not judged; "
+  "eleven recorded flex deviations are KNOWN-FINDINGs.",
+)
+
 NOT_APPLICABLE = {}
 
 
